@@ -27,7 +27,7 @@ Definition N_of_status (s : status) : N :=
 Fixpoint key_of_aux (len : nat) (x : N) (acc : key) : key :=
   match len with
   | O => acc
-  | S l => key_of_aux l (x / 256) ((x mod 256) :: acc)
+  | S l => key_of_aux l (N.shiftr x 8) (N.land x 255 :: acc)
   end.
 Definition K (len : nat) (x : N) : key := key_of_aux len x [].
 
